@@ -153,6 +153,7 @@ def run(ctx):
     # far from the origin (binary-exact, so that the shifted grid is exactly representable): anything that compares or
     # caches times with a relative tolerance shows here.  Parts (a), (c), (d) compare with start-free specifications.
     far = [131072.0, -65536.09375]
+    # (d) also uses the shifts -dt and -3 dt: a float time or an interval bound then falls on the absolute time 0.0 exactly
 
     # (a) Tempo / PtTempo with time-dependent clock Hamiltonians, every tau
     consts = {"MaxN": str(n), "MinN": str(n), "KSet": "{1,2,1000}", "ASet": "{1000,1}",
@@ -212,7 +213,7 @@ def run(ctx):
     corr = ctx.tlc("Correlations", c07.CORR_CFG, label="float time specifications", workers=1,
                    constants={"N": "3", "SpecSets": "<<%s, %s>>" % (fl, fl), "Devs": "{}", "Emit": "TRUE"})
     djobs = [{"case": c, "mode": "ord", "base": base, "vals": vals, "seed": ctx.seed, "start": tau}
-             for i, c in enumerate(corr.cases) for ti, tau in enumerate(taus + far) if not quick or (i + ti) % 3 == 0]
+             for i, c in enumerate(corr.cases) for ti, tau in enumerate(taus + far + [-DT, -3 * DT]) if not quick or (i + ti) % 3 == 0]
     for job, mm in zip(djobs, core.pmap(c07.run_corr, djobs, chunksize=8)):
         ctx.case({"part": "d", "specs": job["case"]["specs"], "tau": job["start"]}, nontrivial=job["start"] != 0)
         for x in mm:
